@@ -42,11 +42,16 @@ CLAIMED = {
   ref="DESIGN.md section 6 C03", note=TB + "The abstraction of a holder graph is defined and proved in Coq (abs_holder); the harness's own abstraction is cross-checked against it on every script.",
   tech="Coq proof (fold invariant, executable spec) + exhaustive abstract histories + SQL scripts"),
  "C04": dict(
-  text="Theorems: path enumeration sound and complete, session view after each statement. The whole pipeline (statement loop with session metadata, "
+  text="Theorems: (c04_pairs_are_the_composition, Holder/Composition.v, 2200 lines) for every provider and every list of statement holders without "
+       "DROP/RENAME, with columns resolved at statement level and closed graphs (executable hypothesis c04_hyps), the script graph's column edges are "
+       "exactly the union of the statements' edges and the reported end-to-end pairs are exactly the pairs (unfed source, unconsumed target) related by a "
+       "non-empty relational composition of the per-statement dataflows - no acyclicity assumption; also: path enumeration sound and complete, session view "
+       "after each statement. The whole pipeline (statement loop with session metadata, "
        "assembly, path enumeration) of the model Tree/Script.v runs inside Coq on the implementation's parse trees for multi-statement chains with "
        "and without metadata; relational composition of the per-statement dataflows and the created-earlier scenarios are evaluated on the implementation.",
-  ref="DESIGN.md section 6 C04", note=TB + "Composition equality itself is checked (S1), not proved; recorded classes K-C04-1/2/3.",
-  tech="Coq proof (paths, session) + full-pipeline model correspondence on chains"),
+  ref="DESIGN.md section 6 C04", note=TB + "Composition is proved for scripts inside c04_hyps (about 90% of the scripts the checks generate; counted per run) and checked (S1) on the "
+       "implementation for all; unresolved columns resolved at script level and DROP/RENAME are outside the theorem; recorded classes K-C04-1/2/3.",
+  tech="Coq proof (union of statement graphs, relational composition, paths, session) + full-pipeline model correspondence on chains"),
  "C05": dict(
   text="Theorems: the token-level model of sqlparse's statement splitter + helpers.split returns exactly the non-empty statements for every separator "
        "variant (also without final semicolon), splitting is idempotent; with a falsy provider the statement loop analyses each statement on its own "
@@ -54,10 +59,14 @@ CLAIMED = {
   ref="DESIGN.md section 6 C05", note=TB + "sqlparse lexer and the T-SQL batch splitter (sqlfluff) are oracles; BEGIN/DECLARE/GO outside the model.",
   tech="Coq proof (splitter invariant; provider independence by induction on fuel) + differential token sequences"),
  "C06": dict(
-  text="Theorems about get_column_lineage / all_simple_paths on the full lineage graph: >=2 nodes (fix F4), duplicate-free chain from an in-degree-0 column "
+  text="Theorem (c06_paths_project_onto_tables, Holder/Composition.v): for scripts inside the executable hypothesis c06_hyps (no DROP/RENAME, resolved "
+       "columns, and on every column edge of a statement the source's table is read and the target's table written by that statement) every column of a "
+       "reported path but the first is owned by a target or intermediate table and every column but the last by a dataset some statement reads. "
+       "Theorems about get_column_lineage / all_simple_paths on the full lineage graph: >=2 nodes (fix F4), duplicate-free chain from an in-degree-0 column "
        "to an out-degree-0 table-owned column, enumeration sound and complete, node equality an equivalence, nodes retrievable, one owner per resolved column. "
        "Model of _build_digraph + paths fed with the implementation's per-statement holders for corpus and generated scripts.",
-  ref="DESIGN.md section 6 C06", note=TB + "Projection onto table lineage is evaluated on the implementation (S), recorded classes K-C06-1/2.",
+  ref="DESIGN.md section 6 C06", note=TB + "The projection theorem's hypotheses are evaluated in Coq on the implementation's own holders (about 90% of the results lie inside); outside "
+       "them (DROP/RENAME: K-C06-1; scalar sub-queries: K-C06-2) and for all results the projection is evaluated on the implementation (S).",
   tech="Coq proof (induction on fuel/paths) + holder-level correspondence"),
  "C07": dict(
   text="Theorems: unquoted identifiers case-insensitive, quoting a lower-case identifier changes nothing, separators/comments/extra semicolons do not change "
